@@ -101,7 +101,17 @@ void convex(valarray<double> const & X, valarray<double> const & Y, vector<unsig
     // now we maintain a stack in h, adding points while each successive
     // point is a "left turn", backtracking if we make a right turn.
     h.clear();
+    if (n == 0)
+    {
+        // No points, so an empty hull.
+        return;
+    }
     h.push_back(p0);
+    if (points.empty())
+    {
+        // A single point is its own hull.
+        return;
+    }
     h.push_back(points[0]);
     for(unsigned i=1;i<points.size();i++) {
         double o=crossProduct(
